@@ -21,6 +21,7 @@ type gstate struct {
 	open   bool
 	mode   string
 	punchd bool
+	clones int
 }
 
 func (g *gstate) do(l string) string {
@@ -71,6 +72,7 @@ func (g *gstate) observe(rng *rand.Rand, pFull, pImg float64) {
 	g.do("loc")
 	g.do("meta")
 	g.do("imeta")
+	g.do("recs")
 	if ch := g.chain(); len(ch) > 2 && rng.Intn(4) == 0 {
 		g.do("cands " + ch[rng.Intn(len(ch))].name)
 		g.feat["cands"] = true
@@ -166,7 +168,7 @@ func (g *gstate) applyOne(rng *rand.Rand) bool {
 
 func weights(profile string) map[string]int {
 	w := map[string]int{"write": 34, "read": 8, "snap": 12, "delete": 7, "invalid": 3, "revert": 3,
-		"reopen": 6, "reload": 2, "closeopen": 1, "resize": 2, "punch": 4, "apply": 12, "drop": 1, "mode": 2, "setrev": 1, "ckpt": 1, "markuser": 2, "cw": 0, "rebuild": 0}
+		"reopen": 6, "reload": 2, "closeopen": 1, "resize": 2, "punch": 4, "apply": 12, "drop": 1, "mode": 2, "setrev": 1, "ckpt": 1, "markuser": 2, "cw": 0, "rebuild": 0, "clone": 0}
 	switch profile {
 	case "io":
 		w["write"], w["read"], w["delete"], w["invalid"] = 50, 15, 4, 0
@@ -180,6 +182,8 @@ func weights(profile string) map[string]int {
 		w["resize"], w["reopen"] = 12, 8
 	case "rebuild":
 		w["rebuild"], w["snap"], w["write"], w["apply"], w["punch"], w["reopen"], w["delete"] = 14, 14, 34, 10, 5, 4, 5
+	case "clone":
+		w["clone"], w["snap"], w["write"], w["delete"], w["reopen"], w["setrev"], w["revert"] = 7, 20, 34, 8, 8, 2, 4
 	case "modes":
 		w["mode"], w["closeopen"], w["reopen"], w["invalid"], w["setrev"], w["delete"], w["write"] = 12, 8, 8, 8, 5, 6, 30
 	case "counter":
@@ -189,7 +193,7 @@ func weights(profile string) map[string]int {
 }
 
 func pick(rng *rand.Rand, w map[string]int) string {
-	keys := []string{"write", "read", "snap", "delete", "invalid", "revert", "reopen", "reload", "closeopen", "resize", "punch", "apply", "drop", "mode", "setrev", "ckpt", "markuser", "cw", "rebuild"}
+	keys := []string{"write", "read", "snap", "delete", "invalid", "revert", "reopen", "reload", "closeopen", "resize", "punch", "apply", "drop", "mode", "setrev", "ckpt", "markuser", "cw", "rebuild", "clone"}
 	tot := 0
 	for _, k := range keys {
 		tot += w[k]
@@ -316,6 +320,32 @@ func generate(rng *rand.Rand, steps int, profile string) ([]string, []string, ma
 			g.tagN++
 			g.do(fmt.Sprintf("cw %d %d", 100+rng.Intn(300), g.tagN))
 			g.feat["concurrent-writes"] = true
+		case "clone":
+			// a replica of a new volume is made as a clone of a snapshot of this one (a few seconds:
+			// the real controller polls the clone status every 2 s)
+			if g.mode != "RW" || g.clones >= 2 {
+				continue
+			}
+			ch := g.chain()
+			if len(ch) == 0 {
+				continue
+			}
+			g.clones++
+			g.do("recs")
+			if rng.Intn(8) == 0 {
+				g.do("clone nosuch")
+				g.feat["clone-missing"] = true
+			} else {
+				k := rng.Intn(len(ch))
+				g.do("clone " + ch[k].name)
+				g.feat["clone"] = true
+				if k < len(ch)-1 {
+					g.feat["clone-not-latest"] = true
+				}
+				if !ch[k].uc {
+					g.feat["clone-auto-snap"] = true
+				}
+			}
 		case "rebuild":
 			// a second replica is added and rebuilt from this one while writes continue; afterwards the
 			// rebuilt replica is the one under test
